@@ -15,9 +15,9 @@ PROP = {
     "rule": ("a case is one round (T threads x nops operations); T cycles 2,4,8,16, mode cycles identical-lock-step / varied / shared "
              "container; non-trivial iff T>=2 and nops>0; distinct by hash of (T, mode, nops, script seed)"),
     "assumptions": ["relaxed atomics used for the co-running matrix create no happens-before edges"],
-    "floor": _q(60, 1500),
+    "floor": _q(100, 2500),
     "must_count": _q(_MUST, _MUST),
     "jobs": [
-        {"mon": "mon_c14", "cfg": "tsan", "cases": _q(120, 3600), "shards": 4},
+        {"mon": "mon_c14", "cfg": "tsan", "cases": _q(192, 4800), "shards": 8},
     ],
 }
